@@ -9,3 +9,4 @@ INVARIANT IsolatedResults
 INVARIANT NoDeadlock
 VIEW ViewNoSched
 CHECK_DEADLOCK FALSE
+PROPERTY RefinesLockProto
